@@ -152,6 +152,16 @@ def run_random(ctx, monitor):
         if rng.random() < .15:
             b = gen.gen_const_struct(rng, shape=sb_shape, kind=kind)
             b["as"] = gen.choice(rng, ["ndarray", "scalar" if not sb_shape else "ndarray", "list"])
+        if rng.random() < .15:
+            # a "renamed twin": the same shape, exponent rows, coefficients and dtype over another name tuple of the
+            # same length (q0 vs q1, (q0,q1) vs (q0,q2), ...): equal storage layout, different polynomials
+            import copy
+            b = copy.deepcopy(a)
+            shift = int(rng.integers(1, 3))
+            b["names"] = [n + shift for n in a["names"]] if rng.random() < .5 else a["names"][:-1] + [a["names"][-1] + shift]
+            if rng.random() < .3:
+                for t in b["terms"][:1]:
+                    t[1] = [x + 1 if isinstance(x, int) else x for x in t[1]]
         opts = {"sort_graded": bool(rng.integers(2)), "sort_reverse": bool(rng.integers(2))}
         what = gen.choice(rng, list(OPS) + ["max", "min"])
         cases.append({"id": i, "kind": "pair", "what": what, "opts": opts, "a": a, "b": b})
